@@ -13,7 +13,7 @@ from .termio import BOOL, INT, REAL, mk_type, sort_of, sort_str
 UNIVERSE_SYMS = {"a": BOOL, "b": BOOL, "x": INT, "y": INT, "r": REAL, "u": ("BV", 2),
                  "f": ("Fun", INT, (INT,)), "st": "String", "A": ("Array", INT, INT),
                  # a user symbol whose name looks like the library's fresh names
-                 "FV1": BOOL}
+                 "FV1": BOOL, "@a": INT, "@b": INT}
 FRESH_RE = re.compile(r"^(FV|ack|__x|\.def_|_assertion_|x!)(\d+)$")
 
 COMMUTATIVE = {op.AND, op.OR, op.PLUS, op.TIMES, op.IFF, op.EQUALS, op.BV_AND, op.BV_OR, op.BV_XOR,
@@ -50,6 +50,9 @@ def build_universe(env):
     xy = m.Times(x, y)
     F["F18"] = m.Equals(m.Pow(xy, m.Int(2)), r)
     F["F19"] = m.Equals(xy, m.Int(4))
+    # an equality between symbols whose names start with @ (the model-validation simplifier of the SMT-LIB
+    # layer treats such symbols as distinct values; the ordinary simplifier must not)
+    F["F20"] = m.Or(m.Equals(S["@a"], S["@b"]), a)
     return S, F
 
 
@@ -105,6 +108,9 @@ class World(object):
             return env.stc.get_type(f)
         if k == "simplify":
             return env.simplifier.simplify(f)
+        if k == "mvsimplify":
+            from pysmt.smtlib.utils import SmtLibModelValidationSimplifier
+            return SmtLibModelValidationSimplifier(env).simplify(f)
         if k == "subst":
             return env.substituter.substitute(f, SUBST_MAPS[ev[2]](m, S))
         if k == "fv":
@@ -275,7 +281,7 @@ def ackey(f):
 
 
 # single events over further universe formulas (not the full per-formula alphabet)
-EXTRA_EVENTS = (("simplify", "F14"), ("logic", "F18"), ("theory", "F18"), ("simplify", "F18"), ("types", "F18"),
+EXTRA_EVENTS = (("mvsimplify", "F20"), ("simplify", "F20"), ("simplify", "F14"), ("logic", "F18"), ("theory", "F18"), ("simplify", "F18"), ("types", "F18"),
                 ("logic", "F19"))
 
 
